@@ -13,11 +13,13 @@ def _get_reserved_names():
 	if not hasattr(_get_reserved_names, '_cache'):
 		from .vector import Vector
 		from .table import Table
+		from .table import Row
 		
 		reserved = set()
 		
-		# Collect all public attributes from both classes
-		for cls in (Vector, Table):
+		# Collect all public attributes from the classes a column accessor is looked up on
+		# (Row views resolve column names by attribute too, and add public methods of their own)
+		for cls in (Vector, Table, Row):
 			for name in dir(cls):
 				# Skip private/dunder attributes
 				if name.startswith('_'):
